@@ -513,7 +513,9 @@ def main():
                     res, tr = run_cases(cases)
                     for case, (impl, model) in zip(cases, res):
                         for oname, orc in P.get("oracles", {}).items():
-                            hits = orc(case, impl)
+                            # (a hit that is a listed known finding is not the witness of THIS broken obligation)
+                            hits = [h for h in orc(case, impl)
+                                    if not match_known(known, pid, {"kind": "oracle", "sig": h.get("sig", {}), "text": h.get("text", "")})]
                             if hits:
                                 found = (case, oname, hits[0])
                                 break
